@@ -355,9 +355,9 @@ func genECDSAPlan(t *rapid.T, sk *skeleton, idx int, pMut int) *plan {
 	p := &plan{}
 	amount := sk.prevouts[idx].Value
 	in := genInnerECDSA(t, p, sk, idx, pMut)
-	wrappers := []string{"bare", "p2sh", "p2wsh", "p2wsh", "p2sh-p2wsh"}
+	wrappers := []string{"bare", "p2sh", "p2sh", "p2wsh", "p2wsh", "p2sh-p2wsh"}
 	if in.name == "p2pkh" {
-		wrappers = []string{"bare", "p2sh", "p2wpkh", "p2wpkh", "p2sh-p2wpkh", "p2wsh"}
+		wrappers = []string{"bare", "p2sh", "p2sh", "p2wpkh", "p2wpkh", "p2sh-p2wpkh", "p2wsh"}
 	}
 	w := rapid.SampledFrom(wrappers).Draw(t, "wrapper")
 	p.label = "g3:" + in.name + "/" + w
@@ -1193,5 +1193,37 @@ func genG3Spend(t *rapid.T) *spend {
 	sk.prevouts[idx] = p.prevout
 	sk.finalizeOutpoints()
 	p.sign(t, sk.tx, idx, sk.prevouts)
+	stageMutation(t, p, &sk.tx.In[idx])
 	return &spend{tx: sk.tx, idx: idx, prevouts: sk.prevouts, gen: p.label, note: strings.Join(p.notes, "; ")}
+}
+
+// stageMutation aims a failure at one verification stage that the
+// template-specific mutations reach rarely: the evaluation of the scriptSig
+// itself, and the final CLEANSTACK / unexpected-witness checks.
+func stageMutation(t *rapid.T, p *plan, in *ms.TxIn) {
+	switch rapid.IntRange(0, 11).Draw(t, "stageMut") {
+	case 0:
+		bad := rapid.SampledFrom([][]byte{{ms.OP_VERIFY}, {ms.OP_IF}, {ms.OP_RETURN}, {ms.OP_PUSHDATA1}, {ms.OP_DUP},
+			{ms.OP_1, ms.OP_IF}, {ms.OP_0, ms.OP_VERIFY}, {ms.OP_RESERVED}, {ms.OP_CAT}}).Draw(t, "badScriptSig")
+		if rapid.Bool().Draw(t, "badFirst") {
+			in.ScriptSig = append(append([]byte{}, bad...), in.ScriptSig...)
+		} else {
+			in.ScriptSig = append(append([]byte{}, in.ScriptSig...), bad...)
+		}
+		p.note("scriptSig-fails-by-itself(%x)", bad)
+	case 1:
+		in.ScriptSig = append(ms.PushData(fill(521, 1)), in.ScriptSig...)
+		p.note("521-byte-push-in-scriptSig")
+	case 2, 3:
+		if len(in.Witness) == 0 {
+			// an extra element at the bottom of the stack: only CLEANSTACK minds
+			in.ScriptSig = append([]byte{rapid.SampledFrom([]byte{ms.OP_0, ms.OP_1, ms.OP_16}).Draw(t, "bottomItem")}, in.ScriptSig...)
+			p.note("extra-item-at-stack-bottom")
+		}
+	case 4:
+		if len(in.Witness) == 0 {
+			in.Witness = [][]byte{rapid.SampledFrom([][]byte{{}, {1}, {0x30, 0x01}}).Draw(t, "strayWitness2")}
+			p.note("witness-on-non-witness-spend")
+		}
+	}
 }
